@@ -1,4 +1,4 @@
 From Coq Require Extraction ExtrOcamlBasic.
 From RdpV Require Import Base Msg LayoutsGlobal LayoutsConnect Link Tpkt Global BerYasna Connect ConnectRun.
 Extraction Language OCaml.
-Extraction "../ocaml/connect/model.ml" connect_impl gcc_impl lic_impl mkConfig.
+Extraction "../ocaml/connect/model.ml" connect_impl negotiate_impl gcc_impl lic_impl mkConfig.
